@@ -483,7 +483,6 @@ def at_value(inst, at):
 # the recorded call sites of C11-field-not-validated (findings/C11.json witness.locations): a Code / Key typed member
 # that no Validate method reaches.  An unvalidated member ANYWHERE ELSE is a new violation.
 UNVALIDATED_LOCS = [re.compile(x) for x in (
-    r"bill/delivery:tracking/code",
 )]
 
 
